@@ -286,6 +286,23 @@ def check(ctx):
             found = True
             ctx.violation("counterexample", "Require lines: an ordinary package next to a trusted_ one in one import group",
                           {"proto": "cli-co", "packages": {"f/trust": co["f/trust"]}}, expected=want_req, observed=treq)
+        # ---- an import path with a single element (the root package of a module named `m`, and of `my-lib.v2`)
+        for mod, want in (("m", "From Goose Require m."), ("my-lib.v2", "From Goose Require my_lib_v2.")):
+            pname = mod.replace("-", "_").replace(".", "_")
+            one = {"": {"r.go": "package %s\n\nfunc Root() uint64 {\n\treturn 1\n}\n" % pname},
+                   "sub": {"s.go": "package sub\n\nimport \"%s\"\n\nfunc Sub() uint64 {\n\treturn %s.Root()\n}\n" % (mod, pname)}}
+            r1 = os.path.join(scratch, "one")
+            gomod.write_module(r1, one, module=mod)
+            rc, out, err = gomod.run_goose(r1, [], ["./sub"], out=os.path.join(r1, "Goose"))
+            t = gomod.tree(os.path.join(r1, "Goose"))
+            stats["single_element_imports"] += 1
+            txt = next(iter(t.values()))[0].decode() if t else ""
+            reqs = [l for l in txt.split("\n") if "Require" in l and "prelude" not in l]
+            if (rc != 0 or reqs != [want]) and not found:
+                found = True
+                ctx.violation("counterexample", "Require line for an import path with a single element",
+                              {"proto": "cli-co", "module": mod, "packages": one, "pattern": "./sub"}, expected=[want], observed={"exit": rc, "requires": reqs, "stderr": err[-300:]})
+            shutil.rmtree(r1, ignore_errors=True)
     finally:
         shutil.rmtree(scratch, ignore_errors=True)
     C.report_broken_obligations(ctx, build, found)
